@@ -610,6 +610,19 @@ def rule_p11(repo):
     return res
 
 
+def rule_p12(repo):
+    """"Fully justified" includes *by whom*: a `theorem` step is justified by the theory that checks the proof
+    (`self.get_theorem`), a rule step by the dispatch table, a macro step by the macro registered under the step's rule
+    name.  A look-up in the process-wide current theory instead (`get_theorem(..)` of the module) justifies a step from a
+    theory that is not the one being extended.  The source classification of C01.K6, read for this property."""
+    from .c01 import rule_k6
+    r = rule_k6(repo)
+    res = RuleResult('C02.P12', 'each kind of step takes its justification from the checking theory, the dispatch table or the registered macro', floor=6)
+    for i in r.instances:
+        res.add(i.key, i.ok, i.detail, i.loc)
+    return res
+
+
 def rules(repo):
     return [rule_p1(repo), rule_p2(repo), rule_p3(repo), rule_p4(repo), rule_p5(repo), rule_p6(repo), rule_p7(repo),
-            rule_p8(repo), rule_p9(repo), rule_p10(repo), rule_p11(repo)]
+            rule_p8(repo), rule_p9(repo), rule_p10(repo), rule_p11(repo), rule_p12(repo)]
